@@ -15,14 +15,20 @@ Bounded stand-in (real IMAPServer + dict backend over in-memory streams; two ses
   fork after every command), CommandResponse.add_untagged (FETCH merging).
 """
 from pyvc.prop import Property, Bounded
-from . import selected as S, state as ST, runstate as RS
+from . import selected as S, state as ST, runstate as RS, session as SES
 from harness.e2e_views import bounded_views
 from harness.e2e_idle import bounded_idle_races
 
+# BaseSession: sequence numbers are interpreted (get_all / get_uids / find) BEFORE the selection is synchronised in the same
+# command -- otherwise they would be read in a numbering the client has not been told about yet (policy C01 of
+# contracts/session.py; the policy existed but no property instantiated it until the fourth seeding round)
+_session = [c for c in SES.make('C01') if c.qualname.split('.')[-1] in (
+    'search_mailbox', 'move_messages', 'copy_messages', 'fetch_messages', 'update_flags', 'expunge_mailbox')]
+
 PROPERTY = Property(
     'C01', 'Sequence numbers: the client view never diverges from the server',
-    contracts=[S.sm_update, S.sm_remove, S.compare] + S.CONTRACTS_LINK + [ST.do_command_sel, ST.do_fetch, ST.do_store, ST.do_search, RS.handle_updates],
-    registry=dict(list(ST.REG.items()) + list(S.REG.items())),
+    contracts=[S.sm_update, S.sm_remove, S.compare] + S.CONTRACTS_LINK + [ST.do_command_sel, ST.do_select, ST.do_fetch, ST.do_store, ST.do_search, RS.handle_updates, S.get_uids, S.get_all] + _session,
+    registry=dict(list(SES.REG.items()) + list(ST.REG.items()) + list(S.REG.items())),
     bounded=[Bounded(
         'two sessions on one mailbox, client model',
         'quick: every victim program of 2 commands from 9 (NOOP, FETCH, UID FETCH x2, STORE, STORE.SILENT, UID '
